@@ -585,11 +585,23 @@ def tab_snipkeys(p, res):
                 seen_ci[name.lower()] = name
         res.stats[modq] = len(seen)
     # parse_snippets splits on '|' and keeps the value
+    from ..pattern import find_stmt
     f = p.func('snippets.parse_snippets')
-    s = src_of(f.node)
-    if ".split('|')" not in s or 'result[name] = snippets[k]' not in s:
-        raise AnalysisError('TAB-SNIPKEYS: parse_snippets no longer has the recognised split-and-copy shape')
-    res.ok('parse_snippets: result[name] = snippets[k] for name in k.split("|")')
+    hits = find_stmt("for $n in $k.split('|'):\n    $r[$n] = $s[$k]", f.node)
+    if len(hits) == 1:
+        res.ok('parse_snippets: every name of a multi-key gets the value of that key')
+    else:
+        res.bad(F('TAB-SNIPKEYS', f.module, f.short, f.node, "for name in k.split('|'): result[name] = snippets[k]",
+                  'every alternative of a `a|b|c` key must be registered, and a later table entry replaces an earlier one (plain assignment, no setdefault / first-last shortcut)'))
+    # the four derived tables come from parse_snippets applied to exactly one raw table each
+    sm = p.module('snippets')
+    for name, raw in (('markup_snippets', 'raw_markup_snippets'), ('stylesheet_snippets', 'raw_stylesheet_snippets'), ('xsl_snippets', 'raw_xsl_snippets'), ('pug_snippets', 'raw_pug_snippets')):
+        b = sm.bindings.get(name)
+        v = b.values[0] if b is not None and b.kind == 'assign' and len(b.values) == 1 else None
+        if v is not None and src_of(v) == 'parse_snippets(%s)' % raw:
+            res.ok('%s = parse_snippets(%s)' % (name, raw))
+        else:
+            res.bad(F('TAB-SNIPKEYS', sm, 'snippets.' + name, v or sm.tree, '%s = %s' % (name, src_of(v) if v is not None else '?'), 'each built-in table is parse_snippets of its own raw table only (layering happens in Config, in the documented order)'))
     res.require_floor(400)
 
 
